@@ -1,6 +1,7 @@
 package checks
 
 import (
+	"syscall"
 	"encoding/json"
 	"fmt"
 	"os"
@@ -47,18 +48,29 @@ func c11Parse(sql string) (cfg *types.Config, cond string, err error, panicked s
 }
 
 func c11Watchdog(res *fw.Result) {
+	// A parse that never returns is an endless loop: it burns CPU. The watchdog therefore measures the CPU time
+	// the process spent on one input (not wall-clock time, which also passes while a loaded machine starves the
+	// process - an earlier 5 s wall-clock limit raised a false alarm on a 60 µs parse under load). A parse that
+	// blocks without burning CPU is caught by the framework's per-unit limit instead.
+	cpu := func() time.Duration {
+		var ru syscall.Rusage
+		if syscall.Getrusage(syscall.RUSAGE_SELF, &ru) != nil {
+			return 0
+		}
+		return time.Duration(ru.Utime.Nano() + ru.Stime.Nano())
+	}
 	go func() {
 		var last string
-		var since time.Time
+		var since time.Duration
 		for {
 			time.Sleep(500 * time.Millisecond)
 			cur, _ := c11Current.Load().(string)
 			if cur != last {
-				last, since = cur, time.Now()
+				last, since = cur, cpu()
 				continue
 			}
-			if cur != "" && time.Since(since) > 5*time.Second {
-				r := fw.Result{Violations: []fw.Violation{{Property: "C11", Harness: "totality", Signature: "C11|hang", What: fmt.Sprintf("Parse did not return within 5s for %q", cur), Case: map[string]any{"sql": cur}, Reproduced: 1}}, Evaluations: 1, States: 1, Transitions: 1, Nontrivial: 1}
+			if cur != "" && cpu()-since > 20*time.Second {
+				r := fw.Result{Violations: []fw.Violation{{Property: "C11", Harness: "totality", Signature: "C11|hang", What: fmt.Sprintf("Parse did not return after 20 s of CPU time for %q", cur), Case: map[string]any{"sql": cur}, Reproduced: 1}}, Evaluations: 1, States: 1, Transitions: 1, Nontrivial: 1}
 				b, _ := json.Marshal(r)
 				fmt.Printf("\n@@RESULT %s\n", b)
 				os.Exit(0)
@@ -791,7 +803,7 @@ func c11Shape(s c11Stmt) string {
 func (c11) Describe(tier string) fw.Description {
 	return fw.Description{
 		Level: "model_checking",
-		Rule: "(a) totality: every token string of length 1..n over a 25-token alphabet (keywords, identifiers, literals, punctuation, a window call, a lone quote, a lone backtick) and every byte string of length 0..m over 16 hostile bytes appended to 6 valid prefixes is parsed (rsql.Parse) under panic capture and a 5 s hang watchdog; (b) fidelity: every statement generated from the documented grammar (DISTINCT, 5+1 select lists with aliases/backticked keyword identifiers/keyword-bearing literals, FROM alias, INNER/LEFT JOIN, 8 WHERE clauses incl. string literals containing LIMIT / ORDER BY / WHERE / FROM / GROUP BY, 5 window kinds, 3 HAVING, 3 WITH option sets, 6 ORDER BY lists (explicit and implicit directions mixed), LIMIT; a third of them again with two sets of keyword-bearing identifiers such as orders, fromage, description, group1, isActive, nullable, whereabouts) is parsed and the returned configuration compared field by field with what was written; (b2) 108 MATCH_RECOGNIZE statements (PARTITION BY 0..2 columns, MEASURES, ONE/ALL ROWS PER MATCH, every AFTER MATCH SKIP form, 3 patterns, DEFINE incl. a literal containing DEFINE) with the clause compared field by field; (c) layout: each statement in 3 keyword cases x 4 separators must give a deep-equal configuration, and equal EmitSync results for a subset; non-trivial = the input was accepted",
+		Rule: "(a) totality: every token string of length 1..n over a 25-token alphabet (keywords, identifiers, literals, punctuation, a window call, a lone quote, a lone backtick) and every byte string of length 0..m over 16 hostile bytes appended to 6 valid prefixes is parsed (rsql.Parse) under panic capture and a hang watchdog (20 s of CPU time on one input); (b) fidelity: every statement generated from the documented grammar (DISTINCT, 5+1 select lists with aliases/backticked keyword identifiers/keyword-bearing literals, FROM alias, INNER/LEFT JOIN, 8 WHERE clauses incl. string literals containing LIMIT / ORDER BY / WHERE / FROM / GROUP BY, 5 window kinds, 3 HAVING, 3 WITH option sets, 6 ORDER BY lists (explicit and implicit directions mixed), LIMIT; a third of them again with two sets of keyword-bearing identifiers such as orders, fromage, description, group1, isActive, nullable, whereabouts) is parsed and the returned configuration compared field by field with what was written; (b2) 108 MATCH_RECOGNIZE statements (PARTITION BY 0..2 columns, MEASURES, ONE/ALL ROWS PER MATCH, every AFTER MATCH SKIP form, 3 patterns, DEFINE incl. a literal containing DEFINE) with the clause compared field by field; (c) layout: each statement in 3 keyword cases x 4 separators must give a deep-equal configuration, and equal EmitSync results for a subset; non-trivial = the input was accepted",
 		Bounds:      map[string]any{"token_len": map[string]int{"quick": 5, "thorough": 6}, "byte_len": map[string]int{"quick": 4, "thorough": 5}},
 		Assumptions: []string{"the grammar is the one accepted by rsql.Parser (clause order HAVING, WITH, ORDER BY, LIMIT; '*' only as the first select item)", "hang = a single Parse taking more than 5 s of wall clock"},
 	}
